@@ -169,3 +169,21 @@ func init() {
 		File: "merge.go", Old: "	if !opts.varexp {\n		return newString(ctx, opts.meta, str), nil\n	}\n\n	varexp, err := parseSplice(str, opts.pathSep, opts.maxIdx, opts.enableNumKeys, opts.escapePath)\n	if err != nil {\n		return nil, raiseParseSplice(ctx, opts.meta, err)\n	}\n",
 		New: "	var varexp varEvaler\n	if opts.varexp {\n		var err error\n		varexp, err = parseSplice(str, opts.pathSep, opts.maxIdx, opts.enableNumKeys, opts.escapePath)\n		if err != nil {\n			return nil, raiseParseSplice(ctx, opts.meta, err)\n		}\n	} else {\n		return newString(ctx, opts.meta, str), nil\n	}\n"})
 }
+
+func init() {
+	// ---------------- C14 ----------------
+	addControl(control{Prop: "C14", Name: "remove-returns-raw-error", Rule: "R14a", Kind: "mutant", Quick: true,
+		File: "path.go", Old: "		return false, raiseExpectedObject(opt, cur)\n	}\n	cur = cfgSub{tmp}", New: "		return false, err\n	}\n	cur = cfgSub{tmp}", Expect: "R14a/(*ucfg.Config).Remove"})
+	addControl(control{Prop: "C14", Name: "getter-returns-conversion-error-unwrapped", Rule: "R14a", Kind: "mutant", Quick: true,
+		File: "getset.go", Old: "	i, fail := v.toInt(O)\n	return i, convertErr(O, v, fail, \"int\")", New: "	i, fail := v.toInt(O)\n	return i, fail", Expect: "R14a/(*ucfg.Config).Int"})
+	addControl(control{Prop: "C14", Name: "new-errors-new-on-unpack-path", Rule: "R14a", Kind: "mutant",
+		File: "reify.go", Old: "	if to == nil {\n		return raiseNil(ErrNilValue)\n	}", New: "	if to == nil {\n		return ErrNilValue\n	}", Expect: "R14a/(*ucfg.Config).Unpack"})
+	addControl(control{Prop: "C14", Name: "validation-error-from-parent-context", Rule: "R14c", Kind: "mutant",
+		File: "reify.go", Old: "	if err := tryValidate(v); err != nil {\n		return reflect.Value{}, raiseValidation(val.Context(), val.meta(), \"\", err)\n	}\n\n	return pointerize(t, baseType, chaseValuePointers(v)), nil", New: "	if err := tryValidate(v); err != nil {\n		pc := val.Context()\n		return reflect.Value{}, raiseValidation(pc.parent.Context(), val.meta(), \"\", err)\n	}\n\n	return pointerize(t, baseType, chaseValuePointers(v)), nil", Expect: "R14c/ucfg.reifyPrimitive"})
+	addControl(control{Prop: "C14", Name: "possibly-nil-reason", Rule: "R14b", Kind: "mutant",
+		File: "reify.go", Old: "	d, err = time.ParseDuration(s)\n	}\n\n	if err != nil {\n		return reflect.Value{}, raiseInvalidDuration(val, err)\n	}\n	return reflect.ValueOf(d), nil", New: "	d, err = time.ParseDuration(s)\n	}\n\n	if err != nil || d < 0 {\n		return reflect.Value{}, raiseInvalidDuration(val, err)\n	}\n	return reflect.ValueOf(d), nil", Expect: "R14b/"})
+	addControl(control{Prop: "C14", Name: "conversion-error-names-other-value", Rule: "R14c", Kind: "mutant",
+		File: "reify.go", Old: "	b, err := val.toBool(opts.opts)\n	if err != nil {\n		return reflect.Value{}, raiseConversion(opts.opts, val, err, \"bool\")", New: "	b, err := val.toBool(opts.opts)\n	if err != nil {\n		pc := val.Context()\n		return reflect.Value{}, raiseConversion(opts.opts, pc.parent, err, \"bool\")", Expect: "R14c/ucfg.reifyBool"})
+	addControl(control{Prop: "C14", Name: "countfield-wrap-via-helper-variable", Rule: "R14a", Kind: "refactor", Quick: true,
+		File: "getset.go", Old: "			ctx := v.Context()\n			return -1, raisePathErr(err, v.meta(), \"\", ctx.path(\".\"))", New: "			ctx := v.Context()\n			var wrapped Error = raisePathErr(err, v.meta(), \"\", ctx.path(\".\"))\n			return -1, wrapped"})
+}
